@@ -35,7 +35,7 @@ import c19ops
 
 PROP = "C19"
 MODS = ["EmbitModel.Props.C19", "EmbitModel.Props.C19Facts", "EmbitModel.Props.C19X", "EmbitModel.Props.C19Y",
-        "EmbitModel.Props.C19Complete"]
+        "EmbitModel.Props.C19Complete", "EmbitModel.Props.C19Z"]
 ZYGOTE = os.path.join(os.path.dirname(os.path.dirname(os.path.abspath(__file__))), "c19zygote.py")
 
 
@@ -402,7 +402,9 @@ class Gen:
                  "values": [self.r.choice([1000, 2000, 3000, 50000]) + self.r.randrange(3) for _ in range(n)]}
             if last and last[-1] == s and self.r.random() < 0.6:
                 # the caller edits its own argument lists in place and passes the same objects again
-                o["reuse"] = self.r.choice([True, True, "script"])
+                o["reuse"] = self.r.choice([True, True, "script", "bytes", "bytes"])
+            if self.r.random() < 0.5:
+                o["ba"] = True      # scripts backed by caller-owned bytearrays ("reuse": "bytes" edits them in place)
         elif kind == "sighash_segwit":
             o = {"op": kind, "obj": s, "idx": idx, "flag": self.r.choice([1, 2, 3, 0x81]), "spk": self.r.randrange(6),
                  "value": self.r.choice([1000, 2000, 70000])}
@@ -546,6 +548,17 @@ def directed():
             {"op": "sighash_taproot", "obj": "t", "idx": 0, "flag": 0, "spks": [1, 1], "values": [1000, 45000], "reuse": True},
             {"op": "sighash_taproot", "obj": "t", "idx": 0, "flag": 0, "spks": [1, 5], "values": [1000, 45000], "reuse": True},
             {"op": "sighash_taproot", "obj": "t", "idx": 0, "flag": 0, "spks": [2, 5], "values": [1000, 45000], "reuse": "script"}]),
+        ("sighash_taproot twice, the caller's scripts are bytearray-backed and their BYTES are edited in place (Transaction; audit2 B-7)", [
+            {"op": "tx_new", "dst": "t", "version": 2, "vin": [1, 2], "vout": [3], "locktime": 0},
+            {"op": "sighash_taproot", "obj": "t", "idx": 0, "flag": 0, "spks": [1, 1], "values": [1000, 2000], "ba": True},
+            {"op": "sighash_taproot", "obj": "t", "idx": 0, "flag": 0, "spks": [1, 5], "values": [1000, 2000], "ba": True, "reuse": "bytes"},
+            {"op": "sighash_taproot", "obj": "t", "idx": 1, "flag": 1, "spks": [9, 5], "values": [1000, 2000], "ba": True, "reuse": "bytes"},
+            {"op": "sighash_taproot", "obj": "t", "idx": 1, "flag": 1, "spks": [9, 2], "values": [1000, 2000], "ba": True, "reuse": "bytes"}]),
+        ("the same on a PSBTView (audit2 B-7)", [
+            {"op": "psbt_build", "dst": "p", "seed": 1, "kinds": ["tr", "wpkh"]}, {"op": "view_of", "src": "p", "dst": "v"},
+            {"op": "sighash_taproot", "obj": "v", "idx": 0, "flag": 0, "spks": [1, 1], "values": [1000, 2000], "ba": True},
+            {"op": "sighash_taproot", "obj": "v", "idx": 0, "flag": 0, "spks": [1, 5], "values": [1000, 2000], "ba": True, "reuse": "bytes"},
+            {"op": "sighash_taproot", "obj": "v", "idx": 1, "flag": 1, "spks": [9, 5], "values": [1000, 2000], "ba": True, "reuse": "bytes"}]),
         ("binding calls with out-buffers, then unrelated serialisations", [
             {"op": "native", "fn": "recoverable", "key": 1, "msg": 1}, {"op": "native", "fn": "recoverable", "key": 3, "msg": 3},
             {"op": "native", "fn": "recoverable", "key": 1, "msg": 1},
@@ -1001,6 +1014,91 @@ class AliasAbstraction:
         return line, "ok " + " ".join(expect), len(mops)
 
 
+class DeepAbstraction(AliasAbstraction):
+    """the same histories for Model/HeapDeep.lean (audit2 B-7): an argument list is a list of REFERENCES to caller-owned
+    buffers (the `data` of each script; each amount is a buffer that is never edited, only replaced), so that
+    "reuse": "bytes" — the bytes of bytearray-backed scripts edited in place, the conditions of c19ops `sighash_taproot`
+    mirrored — is an edit of the buffers, not of the list. Key kinds: an extracted `true` is a deep key, anything else
+    the worst kind."""
+
+    def __init__(self, memo_keys):
+        AliasAbstraction.__init__(self, memo_keys)
+        self.kinds = ["d" if memo_keys.get(n) else "a" for n in self.NAMES]
+
+    def build(self, ops, live):
+        if not self.ok:
+            return None
+        mops, expect = [], []
+        obj, held, isview, noquery = {}, {}, set(), set()
+        contents = {}
+        st = {"narg": 0, "ncell": 0}
+
+        def cell(x):
+            return contents.setdefault(json.dumps(x), 1 + len(contents))
+
+        def emit(m):
+            mops.append(m); expect.append("-")
+
+        def cells(xs):
+            rs = []
+            for x in xs:
+                emit("C %d" % cell(x))
+                rs.append(st["ncell"]); st["ncell"] += 1
+            return rs
+
+        def lst(rs):
+            return "%d %s" % (len(rs), " ".join(map(str, rs))) if rs else "0"
+        for k, o in enumerate(ops):
+            l, n = live[k], o["op"]
+            if l["status"] != "ok":
+                if n == "sighash_taproot":
+                    noquery.add(o["obj"])
+                if n in ("tx_default", "tx_new", "view_of"):
+                    return None
+                continue
+            if n in ("psbt_sighash", "tx_set_locktime", "psbt_sign") and o.get("obj") is not None:
+                noquery.add(o["obj"])
+                continue
+            if n in ("tx_default", "tx_new", "view_of"):
+                obj[o["dst"]] = len(obj)
+                held.pop(o["dst"], None)
+                noquery.discard(o["dst"])
+                (isview.add if n == "view_of" else isview.discard)(o["dst"])
+                emit("O")
+            elif n in ("tx_append_vin", "tx_append_vout") and o["obj"] in obj:
+                emit("M %d" % obj[o["obj"]])
+            elif n == "sighash_taproot" and o["obj"] in obj and o["obj"] not in noquery:
+                s = o["obj"]
+                ba = bool(o.get("ba")) or not o["spks"]
+                if o.get("reuse") and s in held:
+                    h = held[s]
+                    if o["reuse"] == "bytes" and len(h["rs"]) == len(o["spks"]) and h["ba"]:
+                        for r, x in zip(h["rs"], o["spks"]):
+                            emit("B %d %d" % (r, cell(["s", x])))       # the caller's bytearray, edited in place
+                    else:
+                        h["rs"] = cells([["s", x] for x in o["spks"]])
+                        h["ba"] = ba
+                        emit("E %d %s" % (h["ks"], lst(h["rs"])))
+                    emit("E %d %s" % (h["kv"], lst(cells([["v", x] for x in o["values"]]))))
+                else:
+                    rs = cells([["s", x] for x in o["spks"]])
+                    rv = cells([["v", x] for x in o["values"]])
+                    h = held[s] = {"ks": st["narg"], "kv": st["narg"] + 1, "rs": rs, "ba": ba}
+                    st["narg"] += 2
+                    emit("N " + lst(rs)); emit("N " + lst(rv))
+                if (o["flag"] & 0x80) or not (0 <= o["idx"] < len(o["values"])):
+                    continue
+                if l.get("stale") is None:
+                    noquery.add(s)
+                    continue
+                b = 2 if s in isview else 0
+                mops.append("T %d %d %d %d %d" % (obj[s], b, h["kv"], b + 1, h["ks"])); expect.append("s%d" % int(bool(l["stale"])))
+        if not any(m.startswith("T") for m in mops):
+            return None
+        line = "memo.deep %d %s %d %s" % (len(self.kinds), " ".join(self.kinds), len(mops), " ".join(mops))
+        return line, "ok " + " ".join(expect), len(mops)
+
+
 class SharedAbstraction:
     """the part of a history the model of Model/HeapShared.lean speaks about — constructions and the caller's container
     mutations over Transaction (vin, vout), Witness (items) and the classes of the generic operations — as a
@@ -1141,6 +1239,13 @@ def examine(c, zyg, ops, kind, abstraction, shrink_budget=80):
             c.tally("memo-trace-ops", n)
             c.tally("memo-trace-edits-in-place", line.count(" E ") // 2)
             c.expect(line, exp, {"history": ops, "kind": kind}, proven=False, op="memo.trace")
+        deep = getattr(abstraction, "deep", None)
+        b = deep.build(ops, ans["live"]) if deep is not None else None
+        if b is not None:
+            line, exp, n = b
+            c.tally("memo-deep-ops", n)
+            c.tally("memo-deep-buffers-edited-in-place", sum(1 for t in line.split(" ") if t == "B"))
+            c.expect(line, exp, {"history": ops, "kind": kind}, proven=False, op="memo.deep")
         shared = getattr(abstraction, "shared", None)
         b = shared.build(ops, ans["live"], ans["fresh"]) if shared is not None else None
         if b is not None:
@@ -1265,6 +1370,7 @@ def run(tier, seed):
     if abstraction is not None:
         mk = parse_memo_keys()
         abstraction.alias = AliasAbstraction(mk)
+        abstraction.deep = DeepAbstraction(mk)
         abstraction.shared = SharedAbstraction(parse_shared_sites(), set(unsafe_shared))
         c.expect("memo.keys", "ok " + (" ".join("%s:%s" % (n.encode().hex(), "c" if b else "a") for n, b in mk.items()) or "-"),
                  {"what": "the driver was built from this run's key kinds"}, proven=False)
